@@ -66,6 +66,10 @@ def build_image(src, name, opts, size, seed):
     rc, out = e2v.sh([T("e2fsck/e2fsck"), "-fyD", img], env=env, timeout=300)
     if rc not in (0, 1):
         raise RuntimeError("e2fsck -fyD failed on %s (rc %s): %s" % (name, rc, out[-400:]))
+    if "-I" in opts and opts[opts.index("-I") + 1] != "128":
+        # inodes at the boundaries of "has i_checksum_hi": i_extra_isize 4 (just enough), 0 (none), 8; written by the tools
+        e2v.sh([T("debugfs/debugfs"), "-w", "-f", "-", img], env=env, timeout=60,
+               input=b"sif d1/sub/second extra_isize 4\nsif d1/sl extra_isize 8\nsif big extra_isize 0\n")
     rc, out = e2v.sh([T("e2fsck/e2fsck"), "-fn", img], env=env, timeout=300)
     if rc != 0:
         raise RuntimeError("image %s not clean after build (rc %s): %s" % (name, rc, out[-400:]))
@@ -99,6 +103,17 @@ def enumerate_objects(fs, seed):
     if fs.has_csum:
         objs.append(Obj("superblock", "sb", fs.sb_raw, fs.off + 1024,
                         lambda r: "sb " + H(r), lambda r: struct.unpack_from("<I", r, 0x3FC)[0], 32, lambda r: "VSB " + H(r)))
+    if fs.has_csum:
+        # every backup copy carries its own s_block_group_nr and therefore its own checksum
+        for g in range(1, fs.groups_count):
+            if not fs.bg_has_super(g):
+                continue
+            off = fs.off + fs.group_first_block(g) * bs
+            raw = bytes(fs.d[off:off + 1024])
+            if struct.unpack_from("<H", raw, 0x38)[0] != 0xEF53:
+                continue
+            objs.append(Obj("superblock_backup", "sb@group%d" % g, raw, off,
+                            lambda r: "sb " + H(r), lambda r: struct.unpack_from("<I", r, 0x3FC)[0], 32, lambda r: "VSB " + H(r)))
     for g, gd in enumerate(fs.groups):
         loc = fs.off + fs.desc_block_loc(g // fs.desc_per_block) * bs + (g % fs.desc_per_block) * fs.desc_size
         if fs.has_csum:
